@@ -4,7 +4,8 @@
    concurrent Get calls (first section, read done, each write done ok/failed,
    last section) and Release calls; no bound on digests, handles or calls. *)
 From Coq Require Import String.
-From VF Require Import Store.Model Store.Spec Store.Invariant Store.Proofs Store.Legacy.
+From VF Require Import Common.Verdict Store.Model Store.Spec Store.Invariant Store.Proofs Store.Legacy
+  Store.Monitor Store.Corr Store.MonitorCorr.
 Open Scope N_scope.
 
 (* Whenever no handle is in use, the write queue is empty and no write is in
@@ -57,6 +58,50 @@ Theorem invariant_holds : forall evs, Inv (run init evs).
 Proof. exact (fun evs => run_inv evs init init_inv). Qed.
 Print Assumptions invariant_holds.
 
+(* ---- the trace monitor is a theorem of the model ---------------------------------------- *)
+
+(* [mon_run repaired init minit evs] (Legacy.v) is the list of kinds the
+   monitor [mon_step] of Spec.v -- the predicate Corr.v folds over the
+   implementation's trace -- reports when it is fed the model's own outputs
+   and backing store for the events [evs].  [trace_ok] accepts a trace when
+   every reported kind is "" or the known finding C07:store-stale-read.
+   For every interleaving the monitor accepts the model's trace.  The proof
+   is a simulation ([Sim], Monitor.v) between the monitor's own books (Gets
+   in flight, handles held and their identities, latest released message)
+   and the model state. *)
+Theorem monitor_accepts_model : forall evs, trace_ok evs = true.
+Proof. exact monitor_accepts_model_l. Qed.
+Print Assumptions monitor_accepts_model.
+
+(* The three kinds the check alarms on are never reported on a model trace. *)
+Theorem monitor_never_alarms : forall evs,
+  reports kind_lost repaired evs = false /\ reports kind_two repaired evs = false /\
+  reports kind_stale repaired evs = false.
+Proof. exact monitor_never_alarms_l. Qed.
+Print Assumptions monitor_never_alarms.
+
+(* The known finding as an explicit hypothesis: if no stale read is reported,
+   nothing is.  (That the hypothesis can fail is returned_handle_latest_refuted.) *)
+Theorem monitor_silent_without_stale_read : forall evs,
+  reports kind_stale_read repaired evs = false ->
+  forall k, In k (mon_run repaired init minit evs) -> k = ""%string.
+Proof. exact monitor_silent_without_stale_read_l. Qed.
+Print Assumptions monitor_silent_without_stale_read.
+
+(* The evaluator itself: [check_case] of Corr.v (viol_from + mism_from, the
+   function coqc runs on the generated case files) applied to the case file
+   the model would produce (its outputs; backing store dumped on the harness'
+   digests 0..4 after each event) reports no mismatch and no violation other
+   than the known stale read. *)
+Theorem corr_accepts_model : forall evs, forallb small_event evs = true ->
+  match check_case (model_case evs) with
+  | VOk => True
+  | VViolation _ k => k = kind_stale_read
+  | VMismatch _ _ => False
+  end.
+Proof. exact corr_accepts_model_l. Qed.
+Print Assumptions corr_accepts_model.
+
 (* ---- what is false, with witnesses (replayed on the code: corpus/C07) -------------- *)
 
 (* The code as found (Release: currentVersion = writtenVersion + 1) loses an update. *)
@@ -89,4 +134,18 @@ Example quiescent_nontrivial :
               EPut 1 7 [5] true; EEnd 1; ERel 1 false 0] in
   let s := run init evs in
   s_queue s = [] /\ s_map s 7 = None /\ s_map s 8 = None /\ s_backing s 7 = [5] /\ s_latest s 7 = [5].
+Proof. vm_compute. repeat split; reflexivity. Qed.
+
+(* the monitor's quiescent-probe check fires on model traces (it is not
+   vacuously silent): on the trace above the final probe Get is "quiet" and
+   the digest 7 has been released dirty, so backing_current is evaluated --
+   and a monitor fed a wrong backing store reports the loss. *)
+Definition probe_evs : list event :=
+  [EGet 2; ERead 0 true; EEnd 0; ERel 0 true 5; EGet 3; ERead 1 true;
+   EPut 1 2 [5] true; EEnd 1; ERel 1 false 0; EGet 4].
+Example monitor_check_reached :
+  forallb small_event probe_evs = true /\ check_case (model_case probe_evs) = VOk /\
+  (let c := model_case probe_evs in
+   check_case (mkCase (c_evs c) (c_outs c) (map (fun _ => [[]; []; []; []; []]) (c_dumps c))))
+  = VViolation 9 kind_lost.
 Proof. vm_compute. repeat split; reflexivity. Qed.
